@@ -1,4 +1,4 @@
-import ZvbiModel.Cache.LemmasAbs2
+import ZvbiModel.Cache.LemmasAbsR
 import ZvbiModel.Ttx.Model
 /-!
 # The MRU page list of the Teletext decoder model (`Ttx.Net.cache`) is the abstract store of cache.c
@@ -119,53 +119,133 @@ theorem truncate_fields (p : Ttx.Page) :
     · split <;> exact ⟨rfl, rfl, rfl, rfl⟩
   · exact ⟨rfl, rfl, rfl, rfl⟩
 
-/-- `Ttx.cachePut` after the key `K` was chosen -/
-def tcachePutK (c : List Ttx.Page) (K : Nat × Nat) (p : Ttx.Page) : List Ttx.Page :=
+/-! ### the store, both source shapes of `_vbi_cache_put_page` (`fix`, finding F17 and its repair) -/
+
+/-- `Ttx.cachePutF fix` after the key `K` was chosen -/
+def tcachePutKF (fix : Bool) (c : List Ttx.Page) (K : Nat × Nat) (p : Ttx.Page) : List Ttx.Page :=
   ({ p.truncate with subno := K.1 } : Ttx.Page) ::
     (match Ttx.cacheFind c p.pgno (K.1 &&& K.2) K.2 with
-      | some (old, c1) => c1.erase old
+      | some (old, c1) =>
+        if fix && K.2 == 0 then (c1.erase old).filter (fun q => q.pgno != p.pgno) else c1.erase old
       | none => c)
 
-theorem tcachePut_eq (c : List Ttx.Page) (pt : Nat) (p : Ttx.Page) :
-    Ttx.cachePut c pt p = if p.pgno &&& 0xFF == 0xFF then none else some (tcachePutK c (Ttx.putKey pt p.pgno p.subno) p) := by
-  unfold Ttx.cachePut tcachePutK
+theorem tcachePutF_eq (fix : Bool) (c : List Ttx.Page) (pt : Nat) (p : Ttx.Page) :
+    Ttx.cachePutF fix c pt p
+      = if p.pgno &&& 0xFF == 0xFF then none else some (tcachePutKF fix c (Ttx.putKey pt p.pgno p.subno) p) := by
+  unfold Ttx.cachePutF tcachePutKF
   generalize Ttx.putKey pt p.pgno p.subno = K
   obtain ⟨k1, k2⟩ := K
   rfl
 
-theorem tcachePutK_abs (nid : Nat) (enc : Ttx.Page → Nat) (c : List Ttx.Page) (K : Nat × Nat) (p : Ttx.Page) :
-    tstore nid enc (tcachePutK c K p) = aput (tstore nid enc c) (tentry nid enc { p.truncate with subno := K.1 }) K.2 := by
-  unfold tcachePutK
+theorem filter_erase_of_false (g : Ttx.Page → Bool) (x : Ttx.Page) (hx : g x = false) (l : List Ttx.Page) :
+    (l.erase x).filter g = l.filter g := by
+  induction l with
+  | nil => rfl
+  | cons y ys ih =>
+    by_cases e : y = x
+    · subst e
+      rw [List.erase_cons_head, List.filter_cons_of_neg (by simp [hx])]
+    · rw [List.erase_cons_tail (by simpa using e)]
+      simp only [List.filter_cons, ih]
+
+/-- filtering the abstract store of one network by "another page number" is filtering the decoder's list -/
+theorem tstore_filter_pgno (nid : Nat) (enc : Ttx.Page → Nat) (c : List Ttx.Page) (E : Entry) (pg : Nat)
+    (hE1 : E.pgno = pg) (hE2 : E.net = nid) :
+    (tstore nid enc c).filter (fun o => !(decide (o.pgno = E.pgno ∧ o.net = E.net)))
+      = tstore nid enc (c.filter (fun q => q.pgno != pg)) := by
+  unfold tstore
+  rw [List.filter_map]
+  congr 1
+  apply List.filter_congr
+  intro q _
+  show (!(decide ((tentry nid enc q).pgno = E.pgno ∧ (tentry nid enc q).net = E.net))) = (q.pgno != pg)
+  have h1 : (tentry nid enc q).pgno = q.pgno := rfl
+  have h2 : (tentry nid enc q).net = nid := rfl
+  rw [h1, h2, hE1, hE2]
+  by_cases h : q.pgno = pg <;> simp [h]
+
+theorem and_zero_eq (x : Nat) : x &&& 0 = 0 := Nat.and_zero x
+
+/-- the decoder's store after the key was chosen = the abstract store operation of the same shape -/
+theorem tcachePutKF_abs (fix : Bool) (nid : Nat) (enc : Ttx.Page → Nat) (c : List Ttx.Page) (K : Nat × Nat) (p : Ttx.Page) :
+    tstore nid enc (tcachePutKF fix c K p)
+      = aputF fix (tstore nid enc c) (tentry nid enc { p.truncate with subno := K.1 }) K.2 := by
+  unfold tcachePutKF aputF
   generalize hX : ({ p.truncate with subno := K.1 } : Ttx.Page) = X
   have e2 : X.pgno = p.pgno := by rw [← hX]; exact (truncate_fields p).1
   have e3 : X.subno = K.1 := by rw [← hX]
-  show tstore nid enc (X :: _) = (match extract (fun o : Entry => o.matches nid X.pgno (X.subno &&& K.2) K.2) (tstore nid enc c) with
-      | some (_, r) => tentry nid enc X :: r
-      | none => tentry nid enc X :: tstore nid enc c)
-  rw [e2, e3, extract_tstore]
-  unfold Ttx.cacheFind
-  cases hf : c.find? (fun q => q.pgno == p.pgno && (q.subno &&& K.2) == (K.1 &&& K.2 &&& K.2)) with
-  | none => rfl
-  | some q =>
-    simp only [Option.map_some, List.erase_cons_head]
-    rfl
+  by_cases hrep : (fix && K.2 == 0) = true
+  · -- repaired shape, single-version key: every version of the page number goes
+    have hfix : fix = true := by cases fix <;> simp_all
+    have hk : K.2 = 0 := by cases fix <;> simp_all
+    subst hfix
+    simp only [if_true]
+    unfold aputR
+    rw [if_pos hk, tstore_filter_pgno nid enc c (tentry nid enc X) p.pgno e2 rfl]
+    unfold Ttx.cacheFind
+    cases hf : c.find? (fun q => q.pgno == p.pgno && (q.subno &&& K.2) == (K.1 &&& K.2 &&& K.2)) with
+    | none =>
+      simp only
+      have hall : c.filter (fun q => q.pgno != p.pgno) = c := by
+        apply List.filter_eq_self.2
+        intro q hq
+        have := List.find?_eq_none.1 hf q hq
+        rw [hk] at this
+        simp only [and_zero_eq, beq_self_eq_true, Bool.and_true, beq_iff_eq] at this
+        simpa using this
+      rw [hall]; rfl
+    | some q =>
+      simp only [hrep, if_true, List.erase_cons_head]
+      have hq := List.find?_some hf
+      have hqp : q.pgno = p.pgno := by
+        simp only [Bool.and_eq_true, beq_iff_eq] at hq; exact hq.1
+      rw [filter_erase_of_false _ q (by simp [hqp]) c]
+      rfl
+  · have hrep' : (fix && K.2 == 0) = false := by simpa using hrep
+    have hsame : (if fix = true then aputR (tstore nid enc c) (tentry nid enc X) K.2
+        else aput (tstore nid enc c) (tentry nid enc X) K.2) = aput (tstore nid enc c) (tentry nid enc X) K.2 := by
+      cases fix with
+      | false => rfl
+      | true =>
+        have hk : K.2 ≠ 0 := by simpa using hrep'
+        simp only [if_true]; unfold aputR; rw [if_neg hk]
+    rw [hsame]
+    show tstore nid enc (X :: _) = (match extract (fun o : Entry => o.matches nid X.pgno (X.subno &&& K.2) K.2) (tstore nid enc c) with
+        | some (_, r) => tentry nid enc X :: r
+        | none => tentry nid enc X :: tstore nid enc c)
+    rw [e2, e3, extract_tstore]
+    unfold Ttx.cacheFind
+    cases hf : c.find? (fun q => q.pgno == p.pgno && (q.subno &&& K.2) == (K.1 &&& K.2 &&& K.2)) with
+    | none => rfl
+    | some q =>
+      simp only [Option.map_some, List.erase_cons_head, hrep', Bool.false_eq_true, if_false]
+      rfl
 
 /-- the page `Ttx.cachePut` stores -/
 def tstored (pt : Nat) (p : Ttx.Page) : Ttx.Page := { p.truncate with subno := (putKey pt p.pgno p.subno).1 }
 
-/-- `Ttx.cachePut` = `aput` on the abstract store: same key rule, the version found under the key is replaced -/
-theorem tcachePut_abs (nid : Nat) (enc : Ttx.Page → Nat) (c : List Ttx.Page) (pt : Nat) (p : Ttx.Page)
-    (hp : p.pgno < 4294967296) {c' : List Ttx.Page} (hres : Ttx.cachePut c pt p = some c') :
+/-- `Ttx.cachePutF fix` = the abstract store operation of shape `fix`: same key rule; as found (`aput`) the version
+    found under the key is replaced, repaired (`aputR`) under a single-version key every version of the page number -/
+theorem tcachePutF_abs (fix : Bool) (nid : Nat) (enc : Ttx.Page → Nat) (c : List Ttx.Page) (pt : Nat) (p : Ttx.Page)
+    (hp : p.pgno < 4294967296) {c' : List Ttx.Page} (hres : Ttx.cachePutF fix c pt p = some c') :
     p.pgno &&& 0xFF ≠ 0xFF ∧
-    tstore nid enc c' = aput (tstore nid enc c) (tentry nid enc (tstored pt p)) (putKey pt p.pgno p.subno).2 := by
-  rw [tcachePut_eq, tputKey_eq pt p.pgno p.subno hp] at hres
+    tstore nid enc c' = aputF fix (tstore nid enc c) (tentry nid enc (tstored pt p)) (putKey pt p.pgno p.subno).2 := by
+  rw [tcachePutF_eq, tputKey_eq pt p.pgno p.subno hp] at hres
   split at hres
   · cases hres
   · rename_i hlow
     refine ⟨by simpa using hlow, ?_⟩
     simp only [Option.some.injEq] at hres
     rw [← hres]
-    exact tcachePutK_abs nid enc c (putKey pt p.pgno p.subno) p
+    exact tcachePutKF_abs fix nid enc c (putKey pt p.pgno p.subno) p
+
+/-- the decoder model's store (`Ttx.cachePut`: the shape of the current source) -/
+theorem tcachePut_abs (nid : Nat) (enc : Ttx.Page → Nat) (c : List Ttx.Page) (pt : Nat) (p : Ttx.Page)
+    (hp : p.pgno < 4294967296) {c' : List Ttx.Page} (hres : Ttx.cachePut c pt p = some c') :
+    p.pgno &&& 0xFF ≠ 0xFF ∧
+    tstore nid enc c' = aputF putReplacesAllVersions (tstore nid enc c) (tentry nid enc (tstored pt p))
+      (putKey pt p.pgno p.subno).2 :=
+  tcachePutF_abs _ nid enc c pt p hp hres
 
 /-! ### several networks: the decoder sees the entries of its own network -/
 
@@ -246,6 +326,25 @@ theorem aput_filter (a : AStore) (e : Entry) (mask : Nat) :
   cases extract (fun o => o.matches e.net e.pgno (e.subno &&& mask) mask) a with
   | none => simp
   | some r => simp
+
+theorem aputR_filter (a : AStore) (e : Entry) (mask : Nat) :
+    (aputR a e mask).filter (fun x => decide (x.net = e.net)) = aputR (a.filter (fun x => decide (x.net = e.net))) e mask := by
+  unfold aputR
+  by_cases hk : mask = 0
+  · simp only [hk, if_true]
+    rw [List.filter_cons_of_pos (by simp), List.filter_filter, List.filter_filter]
+    congr 1
+    apply List.filter_congr
+    intro x _
+    exact Bool.and_comm _ _
+  · simp only [hk, if_false]; exact aput_filter a e mask
+
+theorem aputF_filter (fix : Bool) (a : AStore) (e : Entry) (mask : Nat) :
+    (aputF fix a e mask).filter (fun x => decide (x.net = e.net))
+      = aputF fix (a.filter (fun x => decide (x.net = e.net))) e mask := by
+  cases fix
+  · exact aput_filter a e mask
+  · exact aputR_filter a e mask
 
 theorem good_run (ops : List Op) : Good (run init ops) := by
   suffices h : ∀ s, Good s → Good (run s ops) from h init good_init
